@@ -64,6 +64,10 @@ func rulesC01(w *World, r *Report) {
 	w.ruleCountedTraversals(r, "C01.R8 counted traversals visit every member", 6, nil)
 	w.ruleConversionLoops(r, "C01.R9 a conversion loop fills every slot from the element of its turn", 1)
 	w.ruleSettersWrite(r, "C01.R10 a setter writes its destination on every path that has a value", 1)
+	{
+		reach := w.reachPkg(w.decodeEntryPoints()...)
+		w.ruleMakeKindChecked(r, "C01.R12 reflect constructors are given a type of the kind they build", func(fn *ssa.Function) bool { return reach[fn] || reach[rootFn(fn)] })
+	}
 	w.rulePointerFieldsAllocated(r, "C01.R11 a pointer field is allocated before its pointee is set")
 	w.ruleInternalErrorsPropagate(r, "C01.R7 a failed conversion or binding surfaces, a successful one continues", 10)
 	// R3
